@@ -32,6 +32,11 @@ var (
 // packages, and keeps a visited set.  Call it at a quiescent point only (it
 // reads library memory without synchronisation; never used in -race builds).
 func FindMutexes(roots ...interface{}) []FoundMutex {
+	ms, _ := findMutexes(roots...)
+	return ms
+}
+
+func findMutexes(roots ...interface{}) ([]FoundMutex, int) {
 	w := &walker{seen: map[visitKey]bool{}}
 	for i, r := range roots {
 		if r == nil {
@@ -39,7 +44,7 @@ func FindMutexes(roots ...interface{}) []FoundMutex {
 		}
 		w.walk(reflect.ValueOf(r), fmt.Sprintf("root%d(%T)", i, r), 0)
 	}
-	return w.out
+	return w.out, w.Skipped
 }
 
 type visitKey struct {
@@ -48,8 +53,42 @@ type visitKey struct {
 }
 
 type walker struct {
-	seen map[visitKey]bool
-	out  []FoundMutex
+	seen    map[visitKey]bool
+	out     []FoundMutex
+	guards  []FoundMutex // locks declared in the structs on the path from the root to here
+	Skipped int          // containers not looked into because their guards could not be taken
+}
+
+// guarded runs f while holding every lock on the current path (the locks the library itself holds
+// when it changes a map or slice of these structs: the enclosing struct's own mutex or its owner's).
+// Iterating a map that a library goroutine is writing is a fatal runtime error, and "quiescent" can
+// end at any moment (a timer fires, a peer's close is noticed), so containers are only read under
+// their guards; the guards are taken with TryLock only, so the probe can never deadlock with the
+// library.  If they cannot be taken within ~50 ms the container is skipped (counted).
+func (w *walker) guarded(f func()) bool {
+	for attempt := 0; attempt < 50; attempt++ {
+		var got []FoundMutex
+		ok := true
+		for _, g := range w.guards {
+			if !g.lock() {
+				ok = false
+				break
+			}
+			got = append(got, g)
+		}
+		if ok {
+			f()
+		}
+		for i := len(got) - 1; i >= 0; i-- {
+			got[i].unlock()
+		}
+		if ok {
+			return true
+		}
+		time.Sleep(time.Millisecond)
+	}
+	w.Skipped++
+	return false
 }
 
 func isMangosType(t reflect.Type) bool {
@@ -103,19 +142,29 @@ func (w *walker) walk(v reflect.Value, path string, depth int) {
 		if ek != reflect.Ptr && ek != reflect.Interface && ek != reflect.Struct {
 			return
 		}
-		for i := 0; i < v.Len() && i < 4096; i++ {
-			w.walk(v.Index(i), fmt.Sprintf("%s[%d]", path, i), depth+1)
+		var elems []reflect.Value
+		w.guarded(func() {
+			for i := 0; i < v.Len() && i < 4096; i++ {
+				elems = append(elems, v.Index(i))
+			}
+		})
+		for i, e := range elems {
+			w.walk(e, fmt.Sprintf("%s[%d]", path, i), depth+1)
 		}
 	case reflect.Map:
 		if v.IsNil() {
 			return
 		}
-		it := v.MapRange()
-		n := 0
-		for it.Next() && n < 4096 {
-			n++
-			w.walk(it.Key(), path+"{key}", depth+1)
-			w.walk(it.Value(), path+"{val}", depth+1)
+		var kv []reflect.Value
+		w.guarded(func() {
+			it := v.MapRange()
+			for n := 0; it.Next() && n < 4096; n++ {
+				kv = append(kv, it.Key(), it.Value())
+			}
+		})
+		for i := 0; i+1 < len(kv); i += 2 {
+			w.walk(kv[i], path+"{key}", depth+1)
+			w.walk(kv[i+1], path+"{val}", depth+1)
 		}
 	}
 }
@@ -133,6 +182,20 @@ func (w *walker) walkStruct(v reflect.Value, path string, depth int) {
 	if !isMangosType(t) {
 		return
 	}
+	// this struct's own locks guard its containers (and those of the structs below it that have none)
+	nguards := len(w.guards)
+	defer func() { w.guards = w.guards[:nguards] }()
+	if v.CanAddr() {
+		for i := 0; i < t.NumField(); i++ {
+			f := v.Field(i)
+			switch f.Type() {
+			case mutexT:
+				w.guards = append(w.guards, FoundMutex{M: (*sync.Mutex)(unsafe.Pointer(f.UnsafeAddr()))})
+			case rwmutexT:
+				w.guards = append(w.guards, FoundMutex{RW: (*sync.RWMutex)(unsafe.Pointer(f.UnsafeAddr()))})
+			}
+		}
+	}
 	for i := 0; i < t.NumField(); i++ {
 		f := v.Field(i)
 		ft := t.Field(i)
@@ -149,6 +212,21 @@ func (w *walker) walkStruct(v reflect.Value, path string, depth int) {
 		case reflect.Ptr, reflect.Interface, reflect.Slice, reflect.Array, reflect.Map:
 			w.walk(f, name, depth+1)
 		}
+	}
+}
+
+func (m FoundMutex) lock() bool {
+	if m.M != nil {
+		return m.M.TryLock()
+	}
+	return m.RW.TryLock()
+}
+
+func (m FoundMutex) unlock() {
+	if m.M != nil {
+		m.M.Unlock()
+	} else {
+		m.RW.Unlock()
 	}
 }
 
@@ -174,7 +252,10 @@ func (m FoundMutex) try() bool {
 // leaked or wedged lock: violation sigPrefix+<path>.  Returns the number of
 // locks probed.
 func ProbeLocks(c *mon.Case, sigPrefix, what string, roots ...interface{}) int {
-	ms := FindMutexes(roots...)
+	ms, skipped := findMutexes(roots...)
+	if skipped > 0 {
+		c.Count("probe_containers_skipped_guard_busy", skipped)
+	}
 	var held []FoundMutex
 	for _, m := range ms {
 		if !m.try() {
